@@ -4,6 +4,7 @@ import NfpmModel.Tar
 import NfpmModel.Pax
 import NfpmModel.Cpio
 import NfpmModel.RpmHdr
+import NfpmModel.RpmFiles
 import NfpmModel.Package
 import NfpmModel.Spec.PlanSpec
 import NfpmModel.Spec.PayloadSpec
@@ -353,6 +354,25 @@ def handle (op : String) (args : List String) : Except String String :=
       let ents (es : List RpmHdr.Entry) : String :=
         s!"{es.length}" ++ String.join (es.map (fun e => s!" {e.tag} {e.typ} {e.count} {hex e.data}"))
       pure s!"{hex f.leadName} {ents f.sig} {ents f.hdr} {f.hdrOff} {f.hdrLen} {f.payload.length}"
+  -- the file list of an rpm header: the model of rpmpack's writeFile / writeFileIndexes, and the reader
+  | "rpmfiletags" => do
+    let pFile : P RpmFiles.RFile := do
+      let name ← pBytes; let mode ← pNat; let flags ← pNat; let owner ← pBytes; let group ← pBytes; let mtime ← pNat
+      let size ← pNat; let digest ← pBytes; let link ← pBytes
+      pure { name, mode, flags, owner, group, mtime, size, digest, link }
+    let fs ← run1 (pList pFile) args
+    let es := RpmFiles.fileEntries fs
+    pure (s!"{es.length}" ++ String.join (es.map (fun e => s!" {e.tag} {e.typ} {e.count} {hex e.data}")))
+  | "rpmfilerows" => do
+    let pEntry : P RpmHdr.Entry := do
+      let tag ← pNat; let typ ← pNat; let count ← pNat; let data ← pBytes
+      pure { tag, typ, count, data }
+    let es ← run1 (pList pEntry) args
+    match RpmFiles.readFiles es with
+    | none => pure "malformed"
+    | some rows =>
+      pure (s!"{rows.length}" ++ String.join (rows.map (fun r =>
+        s!" {hex r.name} {r.size} {r.mode} {r.mtime} {hex r.digest} {hex r.linkto} {r.flags} {hex r.owner} {hex r.group}")))
   | _ => .error s!"unknown op {op}"
 
 partial def loop (hin : IO.FS.Stream) (hout : IO.FS.Stream) : IO Unit := do
